@@ -374,10 +374,37 @@ func genC02(x *Ctx) {
 				buf, src = c02Structured(r, 96), "structured"
 			case 2:
 				buf, src = c02Valid(r, r.Pick(40, 40, maxLen)), "valid"
-			case 3: // valid packet, a few random byte edits
+			case 3: // valid packet, a few random byte edits or one edit of a length-bearing field
 				buf, src = c02Valid(r, 40), "mutated"
-				for k := r.Range(1, 3); k > 0 && len(buf) > 0; k-- {
-					buf[r.Intn(len(buf))] = c02Alphabet[r.Intn(len(c02Alphabet))]
+				if r.Bool() {
+					for k := r.Range(1, 3); k > 0 && len(buf) > 0; k-- {
+						buf[r.Intn(len(buf))] = c02Alphabet[r.Intn(len(c02Alphabet))]
+					}
+				} else {
+					src = "field-edit"
+					at := 12 + 4*int(buf[0]&0x0F) // extension header, if any
+					switch r.Intn(6) {
+					case 0: // CSRC count
+						buf[0] = buf[0]&0xF0 | byte(r.Pick(0, 1, 15, int(buf[0]&0x0F)+1, int(buf[0]&0x0F)-1)&0x0F)
+					case 1: // X bit
+						buf[0] ^= 0x10
+					case 2: // P bit
+						buf[0] ^= 0x20
+					case 3: // padding count
+						buf[len(buf)-1] = byte(r.Pick(0, 1, 2, len(buf)-at, len(buf)-12, len(buf), len(buf)-1, 255))
+						buf[0] |= 0x20
+					case 4: // extension length field
+						if buf[0]&0x10 != 0 && at+4 <= len(buf) {
+							w := int(buf[at+2])<<8 | int(buf[at+3])
+							w = r.Pick(w+1, w-1, 0, w*2, 0x8000|w, 0xFFFF, (len(buf)-at-4)/4, (len(buf)-at-4)/4+1)
+							buf[at+2], buf[at+3] = byte(w>>8), byte(w)
+						}
+					default: // profile
+						if buf[0]&0x10 != 0 && at+2 <= len(buf) {
+							p := r.Pick(0xBEDE, 0x1000, 0x1001, 0xBEDF, 0)
+							buf[at], buf[at+1] = byte(p>>8), byte(p)
+						}
+					}
 				}
 			default:
 				buf, src = r.Bytes(r.Size(maxLen, 12, 16)), "random"
